@@ -90,8 +90,8 @@ Init == /\ nr \in NRs
 Update(r) == /\ Part = "var"
              /\ sent[r] = <<>>
              /\ pc[r] < Len(mine[r])
-             /\ LET s == SSmp[mine[r][pc[r] + 1]]
-                IN  acc' = [acc EXCEPT ![r] = UpdAccG(ZeroGuard, acc[r], s.v, s.w)]
+             /\ LET s == smp[mine[r][pc[r] + 1]]          \* the rank is handed the weight times WScale
+                IN  acc' = [acc EXCEPT ![r] = UpdAccG(ZeroGuard, acc[r], s.v, RMul(WScale, s.w))]
              /\ pc' = [pc EXCEPT ![r] = pc[r] + 1]
              /\ UNCHANGED <<nr, smp, mine, sent, res, dpc, cat, out>>
 Gather(r) == /\ Part = "var"
@@ -194,14 +194,20 @@ VarianceIsTwoPass ==
     (Part = "var" /\ AnyFinished /\ HasStats) =>
         IF N >= 2 THEN LET v == Num(TwoPassVar(PosSamples(smp))) IN \A r \in Ranks : Finished(r) => res[r][1].var = v
         ELSE \A r \in Ranks : Finished(r) => IsNaNValue(res[r][1].var)
+\* The lemmas below are statements about the sample set alone: they are evaluated once per behaviour, at the
+\* point every behaviour passes through (every rank has posted and none has combined / the lists are
+\* concatenated and no rank has reordered), not in every state.
+LemmaPoint == IF Part = "var" THEN AllPosted /\ ~AnyFinished
+              ELSE cat # <<>> /\ \A r \in Ranks : out[r] = <<>>
 \* lemma: leaving the zero-weight samples out or in gives the same two-pass statistics
 ZeroWeightLemma ==
-    (Part = "var" /\ Defined(smp)) => /\ WMean(smp) = WMean(PosSamples(smp))
+    (Part = "var" /\ LemmaPoint /\ Defined(smp)) => /\ WMean(smp) = WMean(PosSamples(smp))
                                       /\ TwoPassVar(smp) = TwoPassVar(PosSamples(smp))
 \* lemma: the two-pass statistics do not depend on the unit of the weights (what MeanIsWeightedMean /
 \* VarianceIsTwoPass / AccIsTwoPass, which compare with the UNSCALED samples, rely on)
 WeightScaleLemma ==
-    Defined(smp) => /\ WMean(SSmp) = WMean(smp)
+    (LemmaPoint /\ Defined(smp)) =>
+                    /\ WMean(SSmp) = WMean(smp)
                     /\ TwoPassVar(SSmp) = TwoPassVar(smp)
                     /\ TwoPassM2(SSmp) = RMul(WScale, TwoPassM2(smp))
                     /\ SumW(SSmp) = RMul(WScale, SumW(smp))
@@ -228,7 +234,7 @@ SummaryMeanIsGlobal ==
 NoRankFails ==
     (Part = "trace" /\ Defined(smp)) => \A r \in Ranks : out[r] # <<>> => out[r][1].mean # ErrV
 \* lemma used by Trace_ParallelStats: the moment form of the two-pass variance
-DirectVarLemma == (Part = "var" /\ N >= 1 /\ Defined(smp)) => DirectVar(smp) = TwoPassVar(smp)
+DirectVarLemma == (Part = "var" /\ LemmaPoint /\ N >= 1 /\ Defined(smp)) => DirectVar(smp) = TwoPassVar(smp)
 \* every rank that reaches the end produces an output (no rank is stuck on an exception)
 NoError ==
     (Part = "var" /\ HasStats) => \A r \in Ranks : Finished(r) => res[r][1].var # ErrV
